@@ -547,6 +547,12 @@ def main():
               MX.bc_function_space, MX.rbc_function_space, MX._compute_bc_space_data, SD.dual0_function_space, SD.dual1_function_space):
         run.under_contract(f, dropped="numba decorators; float dtypes; DOF maps are computed by the real code per topology (integers), only the evaluators run on symbols")
     run.add("lemma.conormal", "lemma", ob_lemma_conormal)
+    # per-iteration block contracts of the final loops of the P1 and RWG/SNC dof-map functions (V-engine, all sizes): multiplier != 0 <=> the slot carries a real
+    # dof and maps to its number; slot cover (used by C16); frame
+    from vlib import vrun as VR
+
+    for blk in ("_p1_final_block", "_rwg_final_block"):
+        VR.add_block(run, "contracts.dofmap_blocks", blk)
     B = {"include_boundary_dofs": True}
     conf = [("tetra", ("P", 1, {})), ("tetra", ("RWG", 0, {})), ("tetra", ("SNC", 0, {})), ("pair:2:012:120", ("P", 1, B)), ("pair:2:012:120", ("RWG", 0, B)),
             ("pair:2:012:120", ("SNC", 0, B)), ("pair:2:120:201", ("P", 1, B)), ("pair:2:120:201", ("RWG", 0, B)), ("pair:2:120:201", ("SNC", 0, B)),
